@@ -611,6 +611,15 @@ def gen_C13(seed):
         scn["knobs"].pop("alloc_cap", None)
         scn["blowup"] = True
         return scn
+    rsl_ = sub(seed, "shortleg")
+    if with_events and rsl_.random() < 0.25:
+        # a short monitored first leg (it ends inside the first step or two of the rerun), reset(), the monitored run again: whatever the
+        # event machinery kept from the first leg (interpolants, duplicate memory) must be gone
+        s["dense"] = bool(rsl_.random() < 0.3)
+        allev = list(range(len(scn["events"])))
+        leg = round(t0 + direction * min(L * rsl_.uniform(0.01, 0.1), abs(s["dt"]) * rsl_.uniform(0.2, 1.5)), 6)
+        scn["ops"] = [{"op": "integrate", "t": leg, "events": allev}, {"op": "reset"}, {"op": "integrate", "events": allev}]
+        return scn
     if r.random() < 0.25:
         # pure split-vs-whole history
         on_grid = r.random() < 0.6
@@ -755,6 +764,11 @@ def gen_EV(seed, profile):
         scales = [10.0 ** r.randint(-6, 6) for _ in range(nev)]
     elif profile == "C07":
         scales = [r.choice([1.0, 1.0, 1e-3, 1e3, 1e-6, 1e6]) for _ in range(nev)]
+        rsc_ = sub(seed, "tinyscale")
+        if rsc_.random() < 0.12:
+            # event values far below the root finder's absolute residual threshold (4 eps) everywhere: only the sign-change bracket can
+            # locate the crossing
+            scales[rsc_.randrange(nev)] = rsc_.choice([1e-12, 1e-15, 1e-15])
     else:
         scales = [r.choice([1.0, 1.0, 1.0, 1e-2, 1e2]) for _ in range(nev)]
     tp = {"C07": 0.0, "C08": 0.0, "C09": 0.45}[profile]
